@@ -138,13 +138,6 @@ Theorem limit_lazy_refines_list : forall (S A : Type) (cbatch : S -> res (list A
 Proof. exact LimitLazyProofs.sim_drain. Qed.
 Print Assumptions limit_lazy_refines_list.
 
-(* NOT PROVED (no theorem; covered on every run only by the direct comparison of the two modes
-   of the implementation on whole statements):
-     batch_row_agree for statements with ORDER BY (FinalOrderPlan) and GROUP BY / aggregates
-     (AggregatePlan), i.e. forall stmt st B, drain_batch B stmt st = Ok rows ->
-       exists rows', drain_row stmt st = Ok rows' /\ rows ~ties rows'.
-   Their twins belong to C07 / C09 and are not composed here. *)
-
 (* ------------------------------------------------------------------ non-vacuity *)
 Local Open Scope string_scope.
 
@@ -198,3 +191,205 @@ Example batch_row_agree_select_limit_nonvacuous : forall (fo : fops) (re : bytes
   select_batch fo re 2 ex_where7 None ex_store7 = Err (EExec 18) /\
   select_row fo re ex_where7 None ex_store7 = Err (EExec 18).
 Proof. intros fo re. repeat split; reflexivity. Qed.
+
+(* ================================================================== statement level: ORDER BY and GROUP BY
+   (appended; Model/SelectPlans.v composes the existing twins ScanProj / Order (C07) / Aggregate
+   (C09) / LimitLazy the way Optimizer.buildFinalPlan stacks the nodes; Proofs/SelectPlansProofs.v)
+
+   A statement's rows are [Order.row] (the dynamic types FinalOrderPlan's compare* functions
+   switch on): projection rows rendered by [conv_row], aggregate result rows by [aconv_row].
+   [nrows] identifies string and []byte of the same bytes and nothing else.  With ORDER BY the two
+   modes return the SAME SEQUENCE (the order node is deterministic in the sequence of rows pushed,
+   and Less does not distinguish string from []byte), which implies the property's "same multiset
+   inside runs of ties".  [ag], [pi], [pf] are the Go library functions the aggregate / order code
+   calls (strconv, encoding/json, float64 bits, int64(float64)); no law is assumed about them. *)
+From KV Require Import Model.SelectPlans Proofs.SelectPlansProofs.
+From KV Require Model.Order Model.Aggregate Spec.Group.
+
+(* batch_row_agree for EVERY statement buildFinalPlan accepts: projection or aggregates, with or
+   without ORDER BY (incl. `order by key asc` alone, which builds no order node), with or without
+   LIMIT (FinalLimitPlan on top, or pushed into the AggregatePlan when there is no ORDER BY) *)
+Theorem batch_row_agree_statement : forall (fo : fops) (re : bytes -> bytes -> res bool)
+    (ag : aggops fo) (pi pf : bytes -> option Z) (B : nat) (q : cstmt fo)
+    (slots : list (option kvpair)) (outs : list Order.row),
+  1 <= B -> fields_ok (q_fields fo q) ->
+  select_stmt_batch fo re ag pi pf B q slots = Ok outs ->
+  exists rows, select_stmt_row fo re ag pi pf q slots = Ok rows /\ nrows rows = nrows outs.
+Proof. exact SelectPlansProofs.select_stmt_batch_row. Qed.
+Print Assumptions batch_row_agree_statement.
+
+(* SELECT <fields> WHERE <wh> ORDER BY <orders> : FinalOrderPlan(ProjectionPlan(scan)) *)
+Theorem batch_row_agree_ordered : forall (fo : fops) (re : bytes -> bytes -> res bool)
+    (ag : aggops fo) (pi pf : bytes -> option Z) (B : nat) (q : cstmt fo)
+    (orders : list Order.order_field) (slots : list (option kvpair)) (outs : list Order.row),
+  1 <= B -> fields_ok (q_fields fo q) ->
+  select_shape_batch fo re ag pi pf B q (SOrder orders SProj) slots = Ok outs ->
+  exists rows, select_shape_row fo re ag pi pf q (SOrder orders SProj) slots = Ok rows /\
+               nrows rows = nrows outs.
+Proof. exact SelectPlansProofs.select_ordered_batch_row. Qed.
+Print Assumptions batch_row_agree_ordered.
+
+(* ... ORDER BY <orders> LIMIT start, count : FinalLimitPlan(FinalOrderPlan(ProjectionPlan(scan))).
+   With LIMIT 0, 0 neither mode touches the child; otherwise the order node drains it on the
+   first call, so a pair on which WHERE or a field fails makes the statement fail in both modes *)
+Theorem batch_row_agree_ordered_limit : forall (fo : fops) (re : bytes -> bytes -> res bool)
+    (ag : aggops fo) (pi pf : bytes -> option Z) (B : nat) (q : cstmt fo)
+    (orders : list Order.order_field) (start count : nat)
+    (slots : list (option kvpair)) (outs : list Order.row),
+  1 <= B -> fields_ok (q_fields fo q) ->
+  select_shape_batch fo re ag pi pf B q (SLimit start count (SOrder orders SProj)) slots = Ok outs ->
+  exists rows, select_shape_row fo re ag pi pf q (SLimit start count (SOrder orders SProj)) slots = Ok rows /\
+               nrows rows = nrows outs.
+Proof. exact SelectPlansProofs.select_ordered_limit_batch_row. Qed.
+Print Assumptions batch_row_agree_ordered_limit.
+
+(* aggregates / GROUP BY : AggregatePlan(scan), [p] = its AggrAll / Fields / Start / Limit, i.e.
+   WITH the LIMIT pushed down when the statement has one and no ORDER BY.  The result rows
+   (Model/Aggregate.v's values) are EQUAL in the two modes. *)
+Theorem batch_row_agree_aggregated : forall (fo : fops) (re : bytes -> bytes -> res bool)
+    (ag : aggops fo) (B : nat) (q : cstmt fo) (p : Group.plan (F fo))
+    (slots : list (option kvpair)) (rows : list (list (Group.value (F fo)))),
+  1 <= B ->
+  select_agg_batch fo re ag B q p slots = Ok rows -> select_agg_row fo re ag q p slots = Ok rows.
+Proof. exact SelectPlansProofs.select_agg_batch_row. Qed.
+Print Assumptions batch_row_agree_aggregated.
+
+(* ... GROUP BY ... ORDER BY <orders> : FinalOrderPlan(AggregatePlan(scan)) *)
+Theorem batch_row_agree_aggregated_ordered : forall (fo : fops) (re : bytes -> bytes -> res bool)
+    (ag : aggops fo) (pi pf : bytes -> option Z) (B : nat) (q : cstmt fo)
+    (orders : list Order.order_field) (slots : list (option kvpair)) (outs : list Order.row),
+  1 <= B -> fields_ok (q_fields fo q) ->
+  select_shape_batch fo re ag pi pf B q (SOrder orders (SAgg 0 None)) slots = Ok outs ->
+  exists rows, select_shape_row fo re ag pi pf q (SOrder orders (SAgg 0 None)) slots = Ok rows /\
+               nrows rows = nrows outs.
+Proof. exact SelectPlansProofs.select_agg_ordered_batch_row. Qed.
+Print Assumptions batch_row_agree_aggregated_ordered.
+
+(* ... GROUP BY ... ORDER BY <orders> LIMIT start, count *)
+Theorem batch_row_agree_aggregated_ordered_limit : forall (fo : fops) (re : bytes -> bytes -> res bool)
+    (ag : aggops fo) (pi pf : bytes -> option Z) (B : nat) (q : cstmt fo)
+    (orders : list Order.order_field) (start count : nat)
+    (slots : list (option kvpair)) (outs : list Order.row),
+  1 <= B -> fields_ok (q_fields fo q) ->
+  select_shape_batch fo re ag pi pf B q (SLimit start count (SOrder orders (SAgg 0 None))) slots = Ok outs ->
+  exists rows, select_shape_row fo re ag pi pf q (SLimit start count (SOrder orders (SAgg 0 None))) slots = Ok rows /\
+               nrows rows = nrows outs.
+Proof. exact SelectPlansProofs.select_agg_ordered_limit_batch_row. Qed.
+Print Assumptions batch_row_agree_aggregated_ordered_limit.
+
+(* the same for ANY scan / filter / projection / per-pair observation of the AggregatePlan whose
+   batch forms are pointwise their row forms (the glue hypotheses, stated explicitly; the theorems
+   above discharge them for the evaluator twins through exec_batch_ok) *)
+Theorem batch_row_agree_statement_abstract : forall (P : Type)
+    (frow : P -> res bool) (fbatch : list P -> res (list bool))
+    (prow : P -> res Order.row) (pbatch : list P -> res (list Order.row))
+    (F : Type) (fadd fsub fmul fdiv : F -> F -> F) (fltb : F -> F -> bool) (fis0 : F -> bool)
+    (of_Z : Z -> F) (to_Z : F -> Z) (fmt_f bits_f : F -> bytes) (json_f : F -> option bytes)
+    (parse_f : bytes -> option F) (json_s : bytes -> bytes)
+    (obs_row : P -> res (Group.pobs F)) (obs_batch : list P -> res (list (Group.pobs F)))
+    (aconv : list (Group.value F) -> Order.row) (pi pf : bytes -> option Z),
+  (forall c bs, fbatch c = Ok bs -> Forall2 (fun kv b => frow kv = Ok b) c bs) ->
+  (forall c rs, pbatch c = Ok rs ->
+     Forall2 (fun kv r => exists r', prow kv = Ok r' /\ nrow r' = nrow r) c rs) ->
+  (forall c os, obs_batch c = Ok os ->
+     Forall2 (fun kv o => exists o', obs_row kv = Ok o' /\ pobs_sim F o' o) c os) ->
+  forall (B : nat), 1 <= B ->
+  forall (s : stmt F) (sl : list (option P)) (outs : list Order.row),
+  run_batch P fbatch pbatch F fadd fsub fmul fdiv fltb fis0 of_Z to_Z fmt_f bits_f json_f parse_f json_s
+            obs_batch aconv pi pf B s sl = Ok outs ->
+  exists rows,
+    run_row P frow prow F fadd fsub fmul fdiv fltb fis0 of_Z to_Z fmt_f bits_f json_f parse_f json_s
+            obs_row aconv pi pf s sl = Ok rows /\
+    nrows rows = nrows outs.
+Proof. exact SelectPlansProofs.stmt_batch_row. Qed.
+Print Assumptions batch_row_agree_statement_abstract.
+
+(* on the columns the compare* functions can look at (text, integers, floats, Booleans) the
+   rendering of a projection row loses nothing: equal renderings up to string / []byte are
+   equal contents (for a float column: provided equal bit patterns are equal float identities,
+   which holds for math.Float64bits) *)
+Theorem rendering_faithful_on_scalars : forall (fo : fops) (ag : aggops fo) (x y : value fo),
+  scalar fo x -> scalar fo y ->
+  (forall f f', a_fbits fo ag f = a_fbits fo ag f' -> f_bits fo f = f_bits fo f') ->
+  okey (conv_val fo (a_fbits fo ag) x) = okey (conv_val fo (a_fbits fo ag) y) -> canon_of fo x = canon_of fo y.
+Proof. exact SelectPlansProofs.conv_val_scalar_inj. Qed.
+Print Assumptions rendering_faithful_on_scalars.
+
+(* buildFinalPlan: LIMIT without ORDER BY is pushed into the AggregatePlan; with ORDER BY it is a
+   FinalLimitPlan over the FinalOrderPlan over the unlimited AggregatePlan *)
+Example build_final_plan_shapes : forall (os : list Order.order_field) (s n : nat),
+  build_final_plan true None (Some (s, n)) = SAgg s (Some n) /\
+  build_final_plan true (Some os) (Some (s, n)) = SLimit s n (SOrder os (SAgg 0 None)) /\
+  build_final_plan false None (Some (s, n)) = SLimit s n SProj.
+Proof. intros. repeat split. Qed.
+
+(* ------------------------------------------------------------------ non-vacuity (statement level) *)
+Definition st_none : bytes -> option Z := fun _ => None.
+Definition st_store : list (option kvpair) :=
+  [Some ("a", "12"); Some ("ab", "-3"); Some ("b", "7"); Some ("k1", "30"); Some ("k2", "7"); Some ("k3", "9")].
+(* select key, int(value) as n, upper(key) + 'x' as u where int(value) > 2 order by n desc [limit 1, 2] *)
+Definition st_n : expr := ECall 5 (EName 5 "int") [EField 9 ValueKW].
+Definition st_fields : list expr :=
+  [EField 0 KeyKW; st_n; EBin 32 OAdd (ECall 21 (EName 21 "upper") [EField 27 KeyKW]) (EStr 34 "x")].
+Definition st_orders : list Order.order_field := [Order.OrderField "n" st_n true].
+Definition st_q (fo : fops) (lim : option (nat * nat)) : cstmt fo :=
+  CStmt fo ex_where (Some st_fields) [] [] []
+    (Stmt (F fo) None ["key"; "n"; "u"] [Order.TSTR; Order.TNUMBER; Order.TSTR] (Some st_orders) lim).
+
+(* the hypotheses of batch_row_agree_statement / _ordered / _ordered_limit are met by a concrete
+   statement with a tie in the sort column (7, 7), B = 2 < number of rows; the third column shows
+   the string / []byte difference that [nrows] absorbs *)
+Example batch_row_agree_ordered_nonvacuous : forall (fo : fops) (re : bytes -> bytes -> res bool) (ag : aggops fo),
+  fields_ok (q_fields fo (st_q fo None)) /\
+  stmt_shape (F fo) (q_stmt fo (st_q fo (Some (1, 2)))) = SLimit 1 2 (SOrder st_orders SProj) /\
+  select_stmt_batch fo re ag st_none st_none 2 (st_q fo None) st_store =
+    Ok [[Order.VBytes "k1"; Order.VInt 30; Order.VBytes "K1x"]; [Order.VBytes "a"; Order.VInt 12; Order.VBytes "Ax"];
+        [Order.VBytes "k3"; Order.VInt 9; Order.VBytes "K3x"]; [Order.VBytes "k2"; Order.VInt 7; Order.VBytes "K2x"];
+        [Order.VBytes "b"; Order.VInt 7; Order.VBytes "Bx"]] /\
+  select_stmt_row fo re ag st_none st_none (st_q fo None) st_store =
+    Ok [[Order.VBytes "k1"; Order.VInt 30; Order.VStr "K1x"]; [Order.VBytes "a"; Order.VInt 12; Order.VStr "Ax"];
+        [Order.VBytes "k3"; Order.VInt 9; Order.VStr "K3x"]; [Order.VBytes "k2"; Order.VInt 7; Order.VStr "K2x"];
+        [Order.VBytes "b"; Order.VInt 7; Order.VStr "Bx"]] /\
+  select_stmt_batch fo re ag st_none st_none 2 (st_q fo (Some (1, 2))) st_store =
+    Ok [[Order.VBytes "a"; Order.VInt 12; Order.VBytes "Ax"]; [Order.VBytes "k3"; Order.VInt 9; Order.VBytes "K3x"]] /\
+  select_stmt_row fo re ag st_none st_none (st_q fo (Some (1, 2))) st_store =
+    Ok [[Order.VBytes "a"; Order.VInt 12; Order.VStr "Ax"]; [Order.VBytes "k3"; Order.VInt 9; Order.VStr "K3x"]].
+Proof.
+  intros fo re ag. split; [|repeat split; reflexivity].
+  cbv [fields_ok q_fields st_q st_fields]. repeat (apply Forall_cons; [reflexivity|]). apply Forall_nil.
+Qed.
+
+(* select value, count(1) as c, sum(strlen(key)) * 2 as s where key != 'zz' group by value
+   [order by c desc, value] [limit 1, 2] *)
+Definition sg_store : list (option kvpair) :=
+  [Some ("a", "x"); Some ("ab", "y"); Some ("b", "x"); Some ("k1", "z"); Some ("k2", "y"); Some ("k3", "x")].
+Definition sg_where : expr := EBin 4 ONotEq (EField 0 KeyKW) (EStr 7 "zz").
+Definition sg_fields (fo : fops) : list (Group.field (F fo)) :=
+  [Group.FKey 0; Group.FAgg (Group.AECall 0) [Group.Call Group.ACount 0];
+   Group.FAgg (Group.AEBin Group.Times (Group.AECall 0) (Group.AEInt 2)) [Group.Call Group.ASum 1]].
+Definition sg_orders : list Order.order_field :=
+  [Order.OrderField "c" (ENum 0 "0") true; Order.OrderField "value" (EField 0 ValueKW) false].
+Definition sg_q (fo : fops) (ord : option (list Order.order_field)) (lim : option (nat * nat)) : cstmt fo :=
+  CStmt fo sg_where None [EField 0 ValueKW] [EField 0 ValueKW]
+        [ENum 0 "1"; ECall 0 (EName 0 "strlen") [EField 0 KeyKW]]
+    (Stmt (F fo) (Some (false, sg_fields fo)) ["value"; "c"; "s"] [Order.TSTR; Order.TNUMBER; Order.TNUMBER] ord lim).
+
+Example batch_row_agree_aggregated_nonvacuous : forall (fo : fops) (re : bytes -> bytes -> res bool) (ag : aggops fo),
+  stmt_shape (F fo) (q_stmt fo (sg_q fo None (Some (1, 2)))) = SAgg 1 (Some 2) /\
+  select_stmt_batch fo re ag st_none st_none 2 (sg_q fo None None) sg_store =
+    Ok [[Order.VBytes "x"; Order.VInt 3; Order.VInt 8]; [Order.VBytes "y"; Order.VInt 2; Order.VInt 8];
+        [Order.VBytes "z"; Order.VInt 1; Order.VInt 4]] /\
+  select_stmt_row fo re ag st_none st_none (sg_q fo None None) sg_store =
+    Ok [[Order.VBytes "x"; Order.VInt 3; Order.VInt 8]; [Order.VBytes "y"; Order.VInt 2; Order.VInt 8];
+        [Order.VBytes "z"; Order.VInt 1; Order.VInt 4]] /\
+  (* LIMIT pushed into the AggregatePlan *)
+  select_agg_batch fo re ag 2 (sg_q fo None None) (Group.Plan false (sg_fields fo) 1 (Some 2)) sg_store =
+    Ok [[Group.VBytes "y"; Group.VInt 2; Group.VInt 8]; [Group.VBytes "z"; Group.VInt 1; Group.VInt 4]] /\
+  select_stmt_row fo re ag st_none st_none (sg_q fo None (Some (1, 2))) sg_store =
+    Ok [[Order.VBytes "y"; Order.VInt 2; Order.VInt 8]; [Order.VBytes "z"; Order.VInt 1; Order.VInt 4]] /\
+  (* ORDER BY c desc, value LIMIT 1, 2: FinalLimitPlan(FinalOrderPlan(AggregatePlan)) *)
+  select_stmt_batch fo re ag st_none st_none 2 (sg_q fo (Some sg_orders) (Some (1, 2))) sg_store =
+    Ok [[Order.VBytes "y"; Order.VInt 2; Order.VInt 8]; [Order.VBytes "z"; Order.VInt 1; Order.VInt 4]] /\
+  select_stmt_row fo re ag st_none st_none (sg_q fo (Some sg_orders) (Some (1, 2))) sg_store =
+    Ok [[Order.VBytes "y"; Order.VInt 2; Order.VInt 8]; [Order.VBytes "z"; Order.VInt 1; Order.VInt 4]].
+Proof. intros fo re ag. repeat split; reflexivity. Qed.
